@@ -10,9 +10,15 @@ BODIES = {
     ("Int",): ["x", "x + 1", "(x, 1)", "(x if x > 1 else 0)", "(lambda y: y + x)(2)", "(lambda x: x + 1)(x)"],
     ("Jet",): ["x", "x.pt", "x.tr.Select(lambda t: t.q + x.pt)", "x.tr.Select(lambda x: x.q)",
                "x.tr.Where(lambda t: t.q > x.eta).Count()", "x.tr.Select(lambda j: (j.q, x.pt))",
-               "[t.q + x.pt for t in x.tr]", "x.tr.Select(lambda t: (lambda x: x + 1)(t.q))"],
+               "[t.q + x.pt for t in x.tr]", "x.tr.Select(lambda t: (lambda x: x + 1)(t.q))", "[x.q for x in x.tr]",
+               "[(x.q, t.q) for x in x.tr for t in x.tr]" if False else "[t.q for t in x.tr if t.q > x.pt]"],
     ("Ev",): ["x.jets.Select(lambda j: j.pt + x.a)", "x.jets.Select(lambda x: x.pt)", "x.a",
               "x.jets.Where(lambda j: j.pt > x.a).Count()", "x.jets.Select(lambda e: e.pt + x.a)"],
+    ("Int", "Int"): ["x - y", "(x, y)", "(y, x)", "x"],
+    ("Ev", "Int"): ["x.jets.Select(lambda j: j.tr.Select(lambda t: t.q + y))",
+                    "x.jets.Select(lambda j: j.tr.Select(lambda e: e.q + y))",
+                    "x.jets.Select(lambda t: t.tr.Select(lambda j: (j.q, t.pt, y)))",
+                    "[[t.q + y for t in j.tr] for j in x.jets]"],
     ("Jet", "Int"): ["x.pt + y", "y", "x", "(y, x.pt)", "x.tr.Select(lambda t: t.q + y)", "x.tr.Select(lambda y: y.q)",
                      "x.tr.Select(lambda t: (lambda y: y + t.q)(y))", "x.tr.Select(lambda j: j.q + y)",
                      "x.tr.Select(lambda e: (e.q, y))"],
@@ -27,6 +33,10 @@ SITES = {
     ("Jet",): ["e.jets.Select(lambda j: {H}(j))", "e.jets.Select(lambda x: {H}(x))", "e.jets.Select(lambda t: {H}(t))",
                "e.jets.Select(lambda j: {H}(x=j))", "e.jets.Where(lambda j: j.pt > 0).Select(lambda j: ({H}(j), e.a))"],
     ("Ev",): ["{H}(e)", "{H}(x=e)", "({H}(e), e.a)"],
+    ("Int", "Int"): ["e.jets.Select(lambda x: {H}(x.pt, x.eta))", "e.jets.Select(lambda y: {H}(y.pt, y.eta))",
+                     "e.jets.Select(lambda x: {H}(y=x.eta, x=x.pt))", "{H}(e.a, e.b)", "e.jets.Select(lambda x: {H}(x.pt, y=x.eta))"],
+    ("Ev", "Int"): ["{H}(e, e.a)", "{H}(x=e, y=e.b)", "e.jets.Select(lambda t: {H}(e, t.pt))",
+                    "e.jets.Select(lambda j: {H}(e, j.pt))", "e.jets.Select(lambda j: j.tr.Select(lambda t: {H}(e, t.q + j.pt)))"],
     ("Jet", "Int"): ["e.jets.Select(lambda j: {H}(j, e.a))", "e.jets.Select(lambda j: {H}(x=j, y=e.a))",
                      "e.jets.Select(lambda j: {H}(y=e.a, x=j))", "e.jets.Select(lambda j: {H}(j, y=e.a))",
                      "e.jets.Select(lambda y: {H}(y, e.a))", "e.jets.Select(lambda t: {H}(t, t.pt))",
